@@ -171,7 +171,13 @@ def rule_funnel(ctx):
         if isinstance(n, ast.ExceptHandler) and n.type is not None and \
                 'ValueError' in norm_src(n.type):
             t = ' '.join(norm_src(s) for s in n.body)
-            if 'np.broadcast(*args)' in t and 'BroadcastError' in t:
+            probes = any(
+                isinstance(c, ast.Call) and isinstance(
+                    c.func, (ast.Name, ast.Attribute)) and
+                ctx.cg.resolve_name_expr(w, c.func) == (
+                    'ext', 'numpy.broadcast')
+                for s in n.body for c in ast.walk(s))
+            if probes and 'BroadcastError' in t:
                 ok = True
     if ok:
         rr.ok('a numpy broadcasting failure is re-raised as BroadcastError',
